@@ -179,6 +179,15 @@ def run(tier):
                       "points": pts, "ray_points": [[float(r.uniform(0.05, 0.95)) * ext[a] for a in range(nd)] for _ in range(2)],
                       "ray_kw": {"honor_grid": False, "stepsize": float(r.choice([0.3, 0.7, 1.5])) * min(d), "max_step": 400},
                       "timeout": 60.0, "meta": {"api": rep, "shape": sh}})
+    # public-API requests that must raise (invalid items at every position of list calls, exhausted ray budgets,
+    # missing gradient) or succeed: the two builds must agree on the outcome class - exceptions raised around
+    # parallel loops are where compiled and interpreted semantics differ most
+    from props import c13
+    for t in c13.requests(r, 24 if q else 200):
+        t = dict(t)
+        t["meta"] = dict(t.get("meta", {}), api="request:" + t["meta"]["req"])
+        t.pop("threads", None)
+        tasks.append(t)
     ri = C.run_impl([dict(t, timeout=t.get("timeout", 20.0)) for t in tasks], "interp", timeout=6000)
     ok_idx = [k for k, o in enumerate(ri) if o["status"] != "Timeout"]
     rj = C.run_impl([dict(tasks[k], timeout=30.0) for k in ok_idx], "jit", timeout=6000)
@@ -223,6 +232,12 @@ def run(tier):
             if not ok:
                 disagreements += 1
                 ck.violation(f"api_solve: results differ between the builds ({d})", dict(pl, what="api"))
+        elif t["op"] == "api_request":
+            ka = {k: v for k, v in a.items() if k not in ("status", "wall")}
+            kb = {k: v for k, v in b.items() if k not in ("status", "wall")}
+            if ka != kb:
+                disagreements += 1
+                ck.violation(f"api_request: the builds return different results ({ka} vs {kb})", dict(pl, what="api_request"))
         elif t["op"] == "call_fn":
             ok, d = cmp_any(a["ret"], b["ret"])
             if not ok:
